@@ -357,9 +357,9 @@ class ADsaComputation(VariableComputation):
         """
         assignment = assignment.copy()
 
-        arg_best, best_cost = None, float("inf")
+        arg_best, best_cost = [], float("inf")
         if self.mode == "max":
-            arg_best, best_cost = None, -float("inf")
+            arg_best, best_cost = [], -float("inf")
 
         for value in self.variable.domain:
             assignment[self.variable.name] = value
